@@ -644,6 +644,74 @@ func c41Contiguity(f *engine.Fn, s *engine.Site, heightObj types.Object) (bool, 
 			return true, "guarded by nested `" + engine.ExprString(oc) + "` / `" + engine.ExprString(ic) + "`"
 		}
 	}
+	// shape 3: the guard lives in an error/bool helper whose success is tested here
+	// (`if err := bs.checkContiguous(height); err != nil { panic }`): the helper's sole
+	// success return must itself be guarded, with the helper's parameter standing for height.
+	for _, gt := range g.Gates(s) {
+		if !sfErrCmp(info, gt.Cond) {
+			continue
+		}
+		a, b, op, _ := sfCmp(gt.Cond)
+		if isNil(a) {
+			a, b = b, a
+		}
+		_ = b
+		if (op == token.EQL) != gt.OnTrue {
+			continue // s is on the failing side
+		}
+		errObj := engine.ObjOf(info, a)
+		defs, _ := sfDefs(f, errObj)
+		for _, d := range defs {
+			call, isCall := ast.Unparen(d).(*ast.CallExpr)
+			if !isCall {
+				continue
+			}
+			cs := f.SiteOf(call)
+			fn, _ := engine.ObjOf(info, call.Fun).(*types.Func)
+			h := f.Prog.FnOf(fn)
+			if h == nil || h == f || cs == nil || !g.Dominates(cs, s) {
+				continue
+			}
+			// sound import: exactly one `return nil`, every other return yields a freshly built error
+			var succ []*ast.ReturnStmt
+			sound := true
+			for _, r := range sfReturns(h) {
+				if len(r.Results) == 0 {
+					sound = false
+					continue
+				}
+				last := ast.Unparen(r.Results[len(r.Results)-1])
+				switch x := last.(type) {
+				case *ast.Ident:
+					if isNil(x) {
+						succ = append(succ, r)
+					} else {
+						sound = false
+					}
+				case *ast.CallExpr, *ast.CompositeLit, *ast.UnaryExpr:
+				default:
+					sound = false
+				}
+			}
+			if !sound || len(succ) != 1 {
+				continue
+			}
+			rs := h.SiteOf(succ[0])
+			if rs == nil {
+				continue
+			}
+			for i, arg := range call.Args {
+				if !isHeight(arg) {
+					continue
+				}
+				if hp := paramObj(h, i); hp != nil {
+					if ok, why := c41Contiguity(h, rs, hp); ok {
+						return true, "guarded inside " + h.Name + ": " + why
+					}
+				}
+			}
+		}
+	}
 	return false, "no `Height() != 0` + `height != Height()+1` guard with a no-return failing branch gates the write"
 }
 
@@ -688,13 +756,32 @@ func c41SaveGuards(c *engine.Ctx, p *engine.Prog) {
 		}
 		heightF := p.Field(c41BS + ".BlockStore.height")
 		var hw *engine.Site
-		engine.InspectBody(f, func(x ast.Node) {
+		heightWrite := map[*engine.Site]bool{}
+		visitAssign := func(x ast.Node, at func(ast.Node) *engine.Site) {
 			if as, ok := x.(*ast.AssignStmt); ok && len(as.Lhs) == 1 && sfFieldSel(info, as.Lhs[0], heightF) {
-				hw = f.SiteOf(as)
+				hw = at(as)
+				if hw != nil {
+					heightWrite[hw] = true
+				}
 				n++
 				c.Check("height-writer", f.Name+" publishes the validated height", as.Pos(), engine.ObjOf(info, as.Rhs[0]) == hObj && hObj != nil, "bs.height must be assigned the height that passed the contiguity test")
 			}
-		})
+		}
+		engine.InspectBody(f, func(x ast.Node) { visitAssign(x, func(n ast.Node) *engine.Site { return f.SiteOf(n) }) })
+		// … also inside function literals that are invoked on the spot (`func() { lock; defer unlock; bs.height = h }()`):
+		// the write happens where the literal is called
+		for _, l := range f.AllLits() {
+			var callSite *engine.Site
+			for _, cs := range f.Calls() {
+				if cs.Call != nil && ast.Unparen(cs.Call.Fun) == ast.Expr(l.Lit) && !cs.Deferred && !cs.InGo {
+					callSite = cs
+				}
+			}
+			if callSite == nil {
+				continue
+			}
+			engine.InspectBody(l, func(x ast.Node) { visitAssign(x, func(ast.Node) *engine.Site { return callSite }) })
+		}
 		if hw != nil {
 			writes = append(writes, hw)
 			// persisted descriptor first
@@ -704,7 +791,7 @@ func c41SaveGuards(c *engine.Ctx, p *engine.Prog) {
 		}
 		for _, s := range writes {
 			label := innerLabel[s]
-			if s.Call == nil {
+			if s.Call == nil || heightWrite[s] {
 				label = "bs.height ="
 			}
 			okC, whyC := c41Contiguity(f, s, hObj)
